@@ -3,7 +3,7 @@ LEVEL = "model_checking"
 MIRSYM = "C03"
 BOUNDS = ("one routing step (process_single_response) with a response id that is ANY u64, from every table built by real operations out of <= 2 (quick) / <= 3 (thorough) "
           "items over {pending call, pending subscription, active subscription}, all request ids any pairwise-different u64; generate_batch_id_range for all u64 x u64; "
-          "insert-before-send order on every path of handle_frontend_messages; array frames of 2 (quick) / 2..3 (thorough) elements of every kind: none skipped; batch_request front end with 2 (quick) / 2..3 (thorough) entries: entry i decoded from element i; the id manager for any counter value and batch length (ids of a batch are not handed out again); back-end batch cases n=2..3 x replies 2..3; the same routing step with a response id that is any text or null against numeric pending ids")
+          "insert-before-send order on every path of handle_frontend_messages; array frames of 2 (quick) / 2..3 (thorough) elements of every kind: none skipped; batch_request front end with 2 (quick) / 2..3 (thorough) entries: entry i decoded from element i; the id manager for any counter value and batch length (ids of a batch are not handed out again); back-end batch cases n=2..3 x replies 2..3; the same routing step with a response id that is any text or null against numeric pending ids (tables of <= 2 entries)")
 EXPLANATION = ("Symbolic execution of the rustc MIR of the client's request table (manager.rs), process_single_response and handle_frontend_messages: one step from any "
                "reachable table state makes arrival order irrelevant; z3 decides that a response completes exactly the call registered under its id, with that very response; responses sharing an array frame with notifications are all handed on, and the entries of a batch (calls too) are not re-ordered after the back end matched them by id. A response whose id is of another kind (the text '7' for the id 7, or null) completes nothing. The premise that ids in flight are pairwise different is decided for batches too.")
 TRUSTED = ["rustc MIR dump", "z3 / cvc5", "HashMap / oneshot contracts (coverage.models)"]
